@@ -142,7 +142,7 @@ func C05(e *Env) {
 		} {
 			args := append([]string{"server", "--root=" + root, "--listen-addr=127.0.0.1:0"}, ch.args...)
 			if strings.HasPrefix(ch.name, "bin ini") {
-				args = append([]string{ch.args[0], "server", "--root=" + root, "--listen-addr=127.0.0.1:0"})
+				args = []string{ch.args[0], "server", "--root=" + root, "--listen-addr=127.0.0.1:0"}
 			}
 			bp, err := host.SpawnBin(e.Bin, args, host.Opt{Dir: e.Dir("logs"), Tag: "c05-bin", Env: ch.env}, e.Dir("cwd"), true)
 			must(err)
